@@ -59,6 +59,9 @@ def scopes(tier):
         ("E", sc("WorldsPkg", "import,importas,from,rel,rel2,relstar", 2, 1, 3, qforms="import,from,rel,rel2,relstar")),
         ("F", sc("WorldsInit", "rel,relstar,from,all", 2, 1, 3, qforms="rel,all")),
         ("G", sc("WorldsDeep", "import,importas,from,rel", 2, 2, 4, qforms="import,importas,rel")),
+        # module names that are textual prefixes of one another (module_bb / module_bb2); small, replayed fully
+        ("S", sc("WorldsSib", "import,importas,from", 2, 1, 3)),
+        ("siblingnames", sc("WorldsPkgSib", "import,importas", 2, 1, 3, features=("siblings",))),
         ("late", sc("WorldsFlat", "import,importas,from,fromas,star", 2, 2, 4, qforms="import,from",
                     features=("late",))),
         ("future", sc("WorldsFlat", "import,from,future", 2, 1, 4, features=("future",))),
@@ -82,6 +85,8 @@ def quick_limit(name):
     """the quick tier replays, in a plain scope, every program of at most two statements and this many
     larger ones (seeded); in a feature scope the programs that have the feature (smallest first, see
     _pymodules.TAGGED_CAP) and this many others"""
+    if name in ("S", "siblingnames"):
+        return 2000
     return 90 if name.isupper() else 25
 
 
